@@ -2,7 +2,10 @@
 //! This binary NEVER decides a property: it is run after an obligation has failed, to turn the
 //! failure into a concrete input on the real code, and on every run to validate the cheap
 //! trusted std facts the proofs assume.
+mod c03;
 mod c16;
+mod c17;
+mod lexers;
 mod trusted;
 mod util;
 
@@ -17,11 +20,14 @@ fn main() {
         "search" => {
             let prop = args.get(2).map(|s| s.as_str()).unwrap_or("");
             let obl = args.get(3).map(|s| s.as_str()).unwrap_or("");
-            let found = match prop {
-                "C16" => c16::search(obl),
+            let found: Vec<util::Witness> = match prop {
+                "C16" => c16::search(obl).into_iter().collect(),
+                "C17" => c17::search(obl),
+                "C03" => c03::search(obl),
                 _ => { eprintln!("no witness search for {prop}"); std::process::exit(2) }
             };
-            util::emit(found);
+            if found.is_empty() { println!("NO-WITNESS"); }
+            for w in found { println!("WITNESS {}", w.to_json()); }
         }
         "replay" => {
             let txt = std::fs::read_to_string(&args[2]).expect("replay file");
@@ -29,6 +35,8 @@ fn main() {
             let input = util::json_str(&txt, "input");
             let r = match (prop.as_str(), input) {
                 ("C16", Some(i)) => c16::check_one(&i),
+                ("C17", Some(i)) => c17::check_one(&i),
+                ("C03", Some(i)) => c03::check_one(&i),
                 _ => { println!("REPLAY: nothing to re-run (no concrete input in file)"); std::process::exit(0) }
             };
             match r {
